@@ -67,7 +67,7 @@ SCHEME_KINDS = {
     'six_t7': [spaces.UNIFYING, spaces.INDUCED_05, spaces.PSEUDO, spaces.B3LTB4, spaces.POSITIONAL, spaces.B5LTT5,
                spaces.UNIFYING_TINY, spaces.INDUCED05_TINY, spaces.B1EQ3T0],
     'six_t': [spaces.UNIFYING, spaces.INDUCED_05, spaces.PSEUDO, spaces.B3LTB4, spaces.POSITIONAL, spaces.B5LTT5,
-              spaces.UNIFYING_TINY, spaces.INDUCED05_TINY],
+              spaces.UNIFYING_TINY, spaces.INDUCED05_TINY, spaces.B5T5HUGE],
     'three_t': [spaces.UNIFYING, spaces.PSEUDO, spaces.B5LTT5, spaces.UNIFYING_TINY, spaces.INDUCED05_TINY],
     'two_t': [spaces.UNIFYING, spaces.B3LTB4, spaces.UNIFYING_TINY],
     'rest11': [x for _, x in spaces.SCHQ if x not in (spaces.UNIFYING, spaces.INDUCED_05, spaces.PSEUDO, spaces.B3LTB4,
@@ -161,14 +161,11 @@ def premutated(it):
 from .lib import mutate_in_place  # noqa: E402
 
 
-def consensus_snapshot(c, back):
-    """content of a Consensus that must never change once it was returned."""
-    try:
-        rk = tuple(tuple(frozenset((e.type, e.value) for e in b) for b in r) for r in c.consensus_rankings)
-        feats = tuple(sorted((str(k), repr(v)) for k, v in c.features.items()))
-        return (rk, feats)
-    except Exception as e:      # unreadable now: also a change
-        return ('unreadable', repr(e))
+from .lib import consensus_snapshot as _snapshot  # noqa: E402
+
+
+def consensus_snapshot(c, back=None):
+    return _snapshot(c)
 
 
 def run_block(ctx, sh, mode, configs, oracle, flags=(True, False), per_dataset=None, only=None, ds_filter=None):
